@@ -3,7 +3,7 @@
    Staged: [okt] is the fragment predicate of the operators proved so far. *)
 From Coq Require Import List ZArith Bool String Reals Lia Lra Permutation.
 From Coq Require Import ClassicalDescription FunctionalExtensionality.
-From PySMT.core Require Import Syntax SyntaxLemmas PyPrims Types Sem.
+From PySMT.core Require Import Syntax SyntaxLemmas PyPrims PyPrimsLemmas Types Sem.
 From PySMT.models Require Import TypeChecker Oracles Ctors Simplifier.
 From PySMT.proofs Require Import Sets_proofs TypeChecker_proofs Coincidence Simplifier_proofs.
 Import ListNotations.
@@ -77,16 +77,19 @@ Definition ok_node (o : op) (args : list term) : bool :=
   | OMinus | OLe | OLt | ODiv => Nat.eqb (List.length args) 2
   | OToReal => Nat.eqb (List.length args) 1
   (* Pow: the exponent is a non-negative integer constant (the only exponents Sem.vpow defines) *)
-  (* stage 3a: bit-vector operators (not yet: sdiv srem ashr slt sle extract rol ror zext sext) *)
+  (* stage 3: bit-vector operators *)
   | OBV k w =>
       (0 <? w)%Z &&
       match k with
       | BNot | BNeg => Nat.eqb (List.length args) 1
-      | BAnd | BOr | BXor | BAdd | BSub | BMul | BUdiv | BUrem | BLshl | BLshr | BConcat => Nat.eqb (List.length args) 2
+      | BAnd | BOr | BXor | BAdd | BSub | BMul | BUdiv | BUrem | BLshl | BLshr | BConcat
+      | BSdiv | BSrem | BAshr => Nat.eqb (List.length args) 2
       | BComp => Nat.eqb (List.length args) 2 && (w =? 1)%Z
-      | _ => false
       end
-  | OBVRel BUlt | OBVRel BUle => Nat.eqb (List.length args) 2
+  | OBVRel _ => Nat.eqb (List.length args) 2
+  | OBVExtract _ s e => Nat.eqb (List.length args) 1 && (0 <=? s)%Z && (s <=? e)%Z
+  | OBVRol w _ | OBVRor w _ => Nat.eqb (List.length args) 1 && (0 <? w)%Z
+  | OBVZext w k | OBVSext w k => match args with [a] => (w =? bv_width a + k)%Z | _ => false end
   | OBVToNat => Nat.eqb (List.length args) 1
   | OPow => match args with
             | [_; T (OIntC y) []] => (0 <=? y)%Z
@@ -313,6 +316,136 @@ Proof.
 Qed.
 Lemma neg_fold w v : 0 <= w -> (2 ^ w - v) mod 2 ^ w = (- v) mod 2 ^ w.
 Proof. intros Hw. replace (2 ^ w - v) with (- v + 1 * 2 ^ w) by lia. apply Z.mod_add. pose proof (pow2_pos w Hw). lia. Qed.
+(* signed reading *)
+Lemma land_pow2 a n : 0 <= n -> Z.land a (2 ^ n) = if Z.testbit a n then 2 ^ n else 0.
+Proof.
+  intros Hn. apply Z.bits_inj'. intros m Hm. rewrite Z.land_spec, Z.pow2_bits_eqb by auto.
+  destruct (Z.eqb_spec n m) as [->|Hne].
+  - destruct (Z.testbit a m) eqn:E; [now rewrite Z.pow2_bits_eqb, Z.eqb_refl by auto | now rewrite Z.bits_0].
+  - rewrite andb_false_r. destruct (Z.testbit a n); [rewrite Z.pow2_bits_eqb by auto; symmetry; now apply Z.eqb_neq | now rewrite Z.bits_0].
+Qed.
+Lemma testbit_top w v : 0 < w -> in_range w v -> Z.testbit v (w - 1) = (2 ^ (w - 1) <=? v).
+Proof.
+  intros Hw [V0 V1]. assert (Hp : 0 < 2 ^ (w - 1)) by (apply pow2_pos; lia).
+  assert (E2 : 2 ^ w = 2 * 2 ^ (w - 1)) by (rewrite <- Z.pow_succ_r by lia; f_equal; lia).
+  destruct (Z.leb_spec (2 ^ (w - 1)) v) as [H|H].
+  - apply Z.testbit_true; [lia|]. assert (v / 2 ^ (w - 1) = 1); [|now rewrite H0].
+    symmetry. apply (Z.div_unique v (2 ^ (w - 1)) 1 (v - 2 ^ (w - 1))); lia.
+  - apply Z.testbit_false; [lia|]. now rewrite Z.div_small by lia.
+Qed.
+Lemma twos_complement_signed w v : 0 < w -> in_range w v -> twos_complement v w = to_signed w v.
+Proof.
+  intros Hw Hv. unfold twos_complement, to_signed, py_and, py_shl, py_pow. rewrite Z.shiftl_1_l.
+  rewrite land_pow2 by lia. rewrite (testbit_top w v Hw Hv).
+  assert (Hp : 0 < 2 ^ (w - 1)) by (apply pow2_pos; lia).
+  destruct (Z.leb_spec (2 ^ (w - 1)) v) as [H|H].
+  - rewrite (proj2 (Z.ltb_ge v (2 ^ (w - 1))) H). rewrite (proj2 (Z.eqb_neq _ 0)) by lia. reflexivity.
+  - rewrite (proj2 (Z.ltb_lt v (2 ^ (w - 1))) H). rewrite Z.eqb_refl. reflexivity.
+Qed.
+Lemma signed_neg_msb w v : 0 < w -> in_range w v -> (to_signed w v <? 0) = msb w v.
+Proof.
+  intros Hw [V0 V1]. unfold to_signed, msb. destruct (Z.ltb_spec v (2 ^ (w - 1))); destruct (Z.leb_spec (2 ^ (w - 1)) v); try lia;
+    first [apply Z.ltb_ge; lia | apply Z.ltb_lt; lia].
+Qed.
+Lemma udiv_range w a b : 0 < w -> in_range w a -> in_range w b -> in_range w (bv_udiv w a b).
+Proof.
+  intros Hw HA [B0 B1]. unfold bv_udiv. destruct (Z.eqb_spec b 0); [pose proof (pow2_pos w ltac:(lia)); split; lia | apply div_range; auto; lia].
+Qed.
+Lemma urem_range w a b : 0 < w -> in_range w a -> in_range w b -> in_range w (bv_urem w a b).
+Proof.
+  intros Hw [A0 A1] [B0 B1]. unfold bv_urem. destruct (Z.eqb_spec b 0); [split; auto|].
+  pose proof (Z.mod_pos_bound a b ltac:(lia)). split; lia.
+Qed.
+Lemma neg_range w a : 0 < w -> in_range w (bv_neg w a).
+Proof. intros. apply mod_range. lia. Qed.
+Lemma sdiv_range w a b : 0 < w -> in_range w a -> in_range w b -> in_range w (bv_sdiv w a b).
+Proof.
+  intros Hw HA HB. unfold bv_sdiv. destruct (msb w a), (msb w b);
+    repeat first [apply neg_range; auto | apply udiv_range; auto].
+Qed.
+Lemma srem_range w a b : 0 < w -> in_range w a -> in_range w b -> in_range w (bv_srem w a b).
+Proof.
+  intros Hw HA HB. unfold bv_srem. destruct (msb w a), (msb w b);
+    repeat first [apply neg_range; auto | apply urem_range; auto].
+Qed.
+
+(* arithmetic shift: setting the top bits *)
+Lemma lor_pow2_add v i : 0 <= i -> 0 <= v < 2 ^ i -> Z.lor v (2 ^ i) = v + 2 ^ i.
+Proof.
+  intros Hi [V0 V1].
+  assert (Hl : Z.land v (2 ^ i) = 0).
+  { rewrite land_pow2 by auto. replace (Z.testbit v i) with false; auto. symmetry.
+    apply Z.testbit_false; auto. now rewrite Z.div_small by lia. }
+  rewrite <- (Z.lxor_lor _ _ Hl). symmetry. now apply Z.add_nocarry_lxor.
+Qed.
+Lemma set_bits_range lo n : 0 <= lo -> 0 <= n < 2 ^ lo -> forall m : nat,
+  fold_left (fun a i => set_bit a i true) (map (fun i => lo + Z.of_nat i) (seq 0 m)) n = n + 2 ^ (lo + Z.of_nat m) - 2 ^ lo.
+Proof.
+  intros Hlo Hn. induction m as [|m IH].
+  - cbn. rewrite Z.add_0_r. lia.
+  - rewrite seq_S, map_app, fold_left_app, IH. cbn [fold_left map Nat.add].
+    unfold set_bit, py_or, py_shl. rewrite Z.shiftl_1_l.
+    assert (Hp : 2 ^ lo <= 2 ^ (lo + Z.of_nat m)) by (apply Z.pow_le_mono_r; lia).
+    rewrite lor_pow2_add by lia.
+    replace (lo + Z.of_nat (S m)) with (Z.succ (lo + Z.of_nat m)) by lia. rewrite Z.pow_succ_r by lia. lia.
+Qed.
+Lemma ashr_neg_fold w x k : 0 < w -> in_range w x -> 0 <= k <= w ->
+  x / 2 ^ k + 2 ^ w - 2 ^ (w - k) = ((x - 2 ^ w) / 2 ^ k) mod 2 ^ w.
+Proof.
+  intros Hw [X0 X1] Hk.
+  assert (Hpk : 0 < 2 ^ k) by (apply pow2_pos; lia). assert (Hpw : 0 < 2 ^ w) by (apply pow2_pos; lia).
+  assert (Hpd : 0 < 2 ^ (w - k)) by (apply pow2_pos; lia).
+  assert (E : 2 ^ w = 2 ^ (w - k) * 2 ^ k) by (rewrite <- Z.pow_add_r by lia; f_equal; lia).
+  replace (x - 2 ^ w) with (x + (- 2 ^ (w - k)) * 2 ^ k) by lia. rewrite Z.div_add by lia.
+  assert (Hq : 0 <= x / 2 ^ k < 2 ^ (w - k)).
+  { split; [apply Z.div_pos; lia|]. apply Z.div_lt_upper_bound; lia. }
+  assert (Hle : 2 ^ (w - k) <= 2 ^ w) by (apply Z.pow_le_mono_r; lia).
+  symmetry. replace (x / 2 ^ k + - 2 ^ (w - k)) with ((x / 2 ^ k + 2 ^ w - 2 ^ (w - k)) + (-1) * 2 ^ w) by lia.
+  rewrite Z.mod_add by lia. apply Z.mod_small. lia.
+Qed.
+
+(* rotations *)
+Lemma rol_split w x j : 0 < w -> in_range w x -> 0 <= j <= w ->
+  (x * 2 ^ j) mod 2 ^ w + x / 2 ^ (w - j) = x / 2 ^ (w - j) + 2 ^ j * (x mod 2 ^ (w - j)) /\
+  in_range w ((x * 2 ^ j) mod 2 ^ w + x / 2 ^ (w - j)).
+Proof.
+  intros Hw [X0 X1] Hj.
+  assert (Hpj : 0 < 2 ^ j) by (apply pow2_pos; lia). assert (Hpd : 0 < 2 ^ (w - j)) by (apply pow2_pos; lia).
+  assert (E : 2 ^ w = 2 ^ (w - j) * 2 ^ j) by (rewrite <- Z.pow_add_r by lia; f_equal; lia).
+  assert (M : (x * 2 ^ j) mod 2 ^ w = (x mod 2 ^ (w - j)) * 2 ^ j) by (rewrite E; apply Z.mul_mod_distr_r; lia).
+  rewrite M. split; [lia|].
+  pose proof (Z.mod_pos_bound x (2 ^ (w - j)) Hpd) as [M0 M1].
+  assert (Q : 0 <= x / 2 ^ (w - j) < 2 ^ j).
+  { split; [apply Z.div_pos; lia|]. apply Z.div_lt_upper_bound; lia. }
+  split; nia.
+Qed.
+Lemma rol_val w x k : 0 < w -> in_range w x -> 0 <= k <= w ->
+  bv_rol w x k = x / 2 ^ (w - k) + 2 ^ k * (x mod 2 ^ (w - k)) /\ in_range w (bv_rol w x k).
+Proof.
+  intros Hw HX Hk. unfold bv_rol, bvmod. cbv zeta. destruct (Z.eq_dec k w) as [->|Hne].
+  - rewrite Z_mod_same_full. rewrite Z.sub_0_r, Z.sub_diag, Z.pow_0_r, Z.mul_1_r, Z.mod_1_r, Z.div_1_r.
+    destruct HX as [X0 X1]. rewrite (Z.mod_small x (2 ^ w)) by (split; assumption). rewrite (Z.div_small x (2 ^ w)) by (split; assumption).
+    rewrite Z.mul_0_r. split; [reflexivity | split; lia].
+  - rewrite (Z.mod_small k w) by lia. destruct (rol_split w x k Hw HX Hk) as [E R]. split; auto.
+Qed.
+Lemma rol_range w x k : 0 < w -> in_range w x -> in_range w (bv_rol w x k).
+Proof.
+  intros Hw HX. unfold bv_rol, bvmod. cbv zeta. pose proof (Z.mod_pos_bound k w Hw) as Hk.
+  apply (rol_split w x (k mod w) Hw HX). lia.
+Qed.
+Lemma ror_val w x k : 0 < w -> in_range w x -> 0 <= k <= w ->
+  bv_ror w x k = x / 2 ^ k + 2 ^ (w - k) * (x mod 2 ^ k).
+Proof.
+  intros Hw HX Hk. unfold bv_ror. cbv zeta. destruct HX as [X0 X1].
+  destruct (Z.eq_dec k w) as [->|Hne]; [|destruct (Z.eq_dec k 0) as [->|Hn0]].
+  - rewrite Z_mod_same_full, Z.sub_0_r. destruct (rol_val w x w Hw (conj X0 X1) ltac:(lia)) as [-> _].
+    rewrite Z.sub_diag, Z.pow_0_r, Z.div_1_r, Z.mod_1_r, Z.mul_1_l. rewrite Z.div_small, Z.mod_small by lia. lia.
+  - rewrite Z.mod_0_l, Z.sub_0_r by lia. destruct (rol_val w x w Hw (conj X0 X1) ltac:(lia)) as [-> _].
+    rewrite Z.sub_diag, Z.pow_0_r, Z.div_1_r, Z.mod_1_r. lia.
+  - rewrite (Z.mod_small k w) by lia. destruct (rol_val w x (w - k) Hw (conj X0 X1) ltac:(lia)) as [-> _].
+    replace (w - (w - k)) with k by lia. reflexivity.
+Qed.
+
 Definition bvval (w : Z) (v : value) : Prop := exists x, v = VBV w x /\ in_range w x.
 Lemma has_ty_bvval w v : has_ty v (TBV w) -> bvval w v.
 Proof. destruct v; cbn; try contradiction. intros [-> H]. exists v. split; auto. Qed.
@@ -325,7 +458,7 @@ Proof.
   - apply mod_range. lia.
 Qed.
 Lemma bvop2_range k w a b : 0 < w ->
-  (match k with BAnd | BOr | BXor | BAdd | BSub | BMul | BUdiv | BUrem | BLshl | BLshr => True | _ => False end) ->
+  (match k with BAnd | BOr | BXor | BAdd | BSub | BMul | BUdiv | BUrem | BLshl | BLshr | BSdiv | BSrem | BAshr => True | _ => False end) ->
   bvval w a -> bvval w b -> bvval w (bvop_sem k w [a; b]).
 Proof.
   intros Hw Hk (x & -> & HX) (y & -> & HY). pose proof HX as [X0 X1]. pose proof HY as [Y0 Y1].
@@ -340,6 +473,9 @@ Proof.
   - unfold bv_urem. destruct (Z.eqb_spec y 0); auto. pose proof (Z.mod_pos_bound x y ltac:(lia)). split; lia.
   - unfold bv_shl. destruct (w <=? y); [split; [lia | apply pow2_pos; lia] | apply mod_range; lia].
   - unfold bv_lshr. destruct (w <=? y); [split; [lia | apply pow2_pos; lia] | apply div_range; auto; apply pow2_pos; lia].
+  - now apply sdiv_range.
+  - now apply srem_range.
+  - apply mod_range. lia.
 Qed.
 Close Scope Z_scope.
 
@@ -509,10 +645,53 @@ Proof.
       pose proof (Forall_inv (Forall_inv_tail IH) I _ (Forall_inv (Forall_inv_tail Hargs)) Hb Hwf) as Hvb.
       apply has_ty_bvval in Hva, Hvb. cbn [map]. destruct Hva as (x & -> & _). destruct Hvb as (y & -> & _).
       cbn. split; auto. destruct (x =? y)%Z; lia.
+    + destruct (Hgen Logic.I) as [-> Hall]. destruct args as [|a [|b [|? ?]]]; try discriminate. pose proof (HB w Hall) as Hv.
+      inversion Hv as [|? ? Va Hv']; subst. inversion Hv' as [|? ? Vb ?]; subst. apply bvval_has_ty. now apply bvop2_range.
+    + destruct (Hgen Logic.I) as [-> Hall]. destruct args as [|a [|b [|? ?]]]; try discriminate. pose proof (HB w Hall) as Hv.
+      inversion Hv as [|? ? Va Hv']; subst. inversion Hv' as [|? ? Vb ?]; subst. apply bvval_has_ty. now apply bvop2_range.
+    + destruct (Hgen Logic.I) as [-> Hall]. destruct args as [|a [|b [|? ?]]]; try discriminate. pose proof (HB w Hall) as Hv.
+      inversion Hv as [|? ? Va Hv']; subst. inversion Hv' as [|? ? Vb ?]; subst. apply bvval_has_ty. now apply bvop2_range.
   - (* bv relations *)
     rewrite eval_plain by reflexivity. apply bv_to_bool_out in Hr. subst ty.
     destruct k; try discriminate Hn; destruct args as [|a [|b [|? ?]]]; try discriminate; cbn [map op_sem bvrel_sem];
       destruct (eval I a); try exact Logic.I; destruct (eval I b); exact Logic.I.
+  - (* extract *)
+    rewrite eval_plain by reflexivity. destruct args as [|a [|? ?]]; try discriminate.
+    apply andb_true_iff in Hn. destruct Hn as [Hn Hse]. apply andb_true_iff in Hn. destruct Hn as [_ Hs0]. apply Z.leb_le in Hse, Hs0.
+    inversion F2 as [|? ta ? ? Ha F2']; subst. inversion F2'; subst. cbn in Hr. destruct ta as [| | | |wa| | |]; try discriminate.
+    destruct ((s >=? wa)%Z || (e >=? wa)%Z); [discriminate|]. destruct (wa <? w)%Z; [discriminate|].
+    destruct (Z.eqb_spec w (e - s + 1)) as [->|]; [|discriminate]. cbn in Hr. inversion Hr; subst ty.
+    pose proof (Forall_inv IH I _ (Forall_inv Hargs) Ha Hwf) as Hva. apply has_ty_bvval in Hva. cbn [map]. destruct Hva as (x & -> & _).
+    cbn. split; auto. unfold bv_extract. apply mod_range. lia.
+  - (* rol *)
+    rewrite eval_plain by reflexivity. destruct args as [|a [|? ?]]; try discriminate.
+    apply andb_true_iff in Hn. destruct Hn as [_ Hw]. apply Z.ltb_lt in Hw.
+    inversion F2 as [|? ta ? ? Ha F2']; subst. inversion F2'; subst. cbn in Hr.
+    destruct ((w <? k)%Z || (w <? 0)%Z || (k <? 0)%Z); [discriminate|]. destruct ta as [| | | |wa| | |]; try discriminate.
+    destruct (Z.eqb_spec w wa) as [<-|]; [|discriminate]. inversion Hr; subst ty.
+    pose proof (Forall_inv IH I _ (Forall_inv Hargs) Ha Hwf) as Hva. apply has_ty_bvval in Hva. cbn [map]. destruct Hva as (x & -> & Rx).
+    cbn. split; auto. now apply rol_range.
+  - (* ror *)
+    rewrite eval_plain by reflexivity. destruct args as [|a [|? ?]]; try discriminate.
+    apply andb_true_iff in Hn. destruct Hn as [_ Hw]. apply Z.ltb_lt in Hw.
+    inversion F2 as [|? ta ? ? Ha F2']; subst. inversion F2'; subst. cbn in Hr.
+    destruct ((w <? k)%Z || (w <? 0)%Z || (k <? 0)%Z); [discriminate|]. destruct ta as [| | | |wa| | |]; try discriminate.
+    destruct (Z.eqb_spec w wa) as [<-|]; [|discriminate]. inversion Hr; subst ty.
+    pose proof (Forall_inv IH I _ (Forall_inv Hargs) Ha Hwf) as Hva. apply has_ty_bvval in Hva. cbn [map]. destruct Hva as (x & -> & Rx).
+    cbn. split; auto. unfold bv_ror. now apply rol_range.
+  - (* zext *)
+    rewrite eval_plain by reflexivity. destruct args as [|a [|? ?]]; try discriminate.
+    inversion F2 as [|? ta ? ? Ha F2']; subst. inversion F2'; subst. cbn in Hr. destruct ta as [| | | |wa| | |]; try discriminate.
+    destruct (Z.ltb_spec w wa) as [|Hle]; [discriminate|]. destruct (w <? 0)%Z; [discriminate|]. cbn in Hr. inversion Hr; subst ty.
+    pose proof (Forall_inv IH I _ (Forall_inv Hargs) Ha Hwf) as Hva. apply has_ty_bvval in Hva. cbn [map]. destruct Hva as (x & -> & [X0 X1]).
+    cbn. split; auto. split; auto. apply Z.lt_le_trans with (2 ^ wa)%Z; auto.
+    destruct (Z.le_gt_cases 0 wa); [apply Z.pow_le_mono_r; lia | rewrite Z.pow_neg_r in X1 by lia; lia].
+  - (* sext *)
+    rewrite eval_plain by reflexivity. destruct args as [|a [|? ?]]; try discriminate.
+    inversion F2 as [|? ta ? ? Ha F2']; subst. inversion F2'; subst. cbn in Hr. destruct ta as [| | | |wa| | |]; try discriminate.
+    destruct (Z.ltb_spec w wa) as [|Hle]; [discriminate|]. destruct (Z.ltb_spec w 0) as [|Hw0]; [discriminate|]. cbn in Hr. inversion Hr; subst ty.
+    pose proof (Forall_inv IH I _ (Forall_inv Hargs) Ha Hwf) as Hva. apply has_ty_bvval in Hva. cbn [map]. destruct Hva as (x & -> & _).
+    cbn. split; auto. now apply mod_range.
   - (* div *) apply arith_rule_inv in Hr. destruct Hr as [Har Hall]. rewrite eval_plain by reflexivity.
     pose proof (HN ty Har Hall) as Hv. destruct args as [|a [|b [|? ?]]]; try discriminate. cbn [map op_sem].
     inversion Hv as [|? ? Ha Hv']; subst. inversion Hv' as [|? ? Hb ?]; subst.
@@ -2067,6 +2246,81 @@ Proof.
     + apply andb_true_iff in Hk. destruct Hk as [_ Hw1]. apply Z.eqb_eq in Hw1. subst w0.
       destruct tys as [|ta [|tb [|? ?]]]; try discriminate. destruct (ty_eqb ta tb && is_bv ta); [|discriminate]. inversion Hr; reflexivity.
   - destruct k; try discriminate Hn; apply bv_to_bool_out in Hr; discriminate.
+  - (* extract *) destruct tys as [|ta ?]; try discriminate. destruct ta as [| | | |wa| | |]; try discriminate.
+    destruct ((s >=? wa)%Z || (e >=? wa)%Z); [discriminate|]. destruct (wa <? w0)%Z; [discriminate|].
+    destruct (negb (w0 =? e - s + 1)%Z); [discriminate|]. inversion Hr; reflexivity.
+  - (* rol *) destruct ((w0 <? k)%Z || (w0 <? 0)%Z || (k <? 0)%Z); [discriminate|].
+    destruct tys as [|ta ?]; try discriminate. destruct ta as [| | | |wa| | |]; try discriminate.
+    destruct (w0 =? wa)%Z; [|discriminate]. inversion Hr; reflexivity.
+  - (* ror *) destruct ((w0 <? k)%Z || (w0 <? 0)%Z || (k <? 0)%Z); [discriminate|].
+    destruct tys as [|ta ?]; try discriminate. destruct ta as [| | | |wa| | |]; try discriminate.
+    destruct (w0 =? wa)%Z; [|discriminate]. inversion Hr; reflexivity.
+  - (* zext *) destruct tys as [|ta ?]; try discriminate. destruct ta as [| | | |wa| | |]; try discriminate.
+    destruct ((w0 <? wa)%Z || (w0 <? 0)%Z); [discriminate|]. inversion Hr; reflexivity.
+  - (* sext *) destruct tys as [|ta ?]; try discriminate. destruct ta as [| | | |wa| | |]; try discriminate.
+    destruct ((w0 <? wa)%Z || (w0 <? 0)%Z); [discriminate|]. inversion Hr; reflexivity.
+  - apply arith_rule_inv in Hr. destruct Hr as [[E|E] _]; discriminate E.
+  - destruct tys as [|ta [|tb ?]]; try discriminate. destruct (negb (ty_eqb ta tb)); [discriminate|]. destruct ta; discriminate.
+  - destruct tys as [|ta ?]; try discriminate. destruct (is_bv ta); discriminate.
+Qed.
+Lemma bvterm_pos : forall a w, okt a = true -> tc a = Some (TBV w) -> (0 < w)%Z.
+Proof.
+  induction a as [o args IH] using term_ind'. intros w Hok Htc.
+  pose proof (okt_node _ _ Hok) as Hn. pose proof (okt_args _ _ Hok) as Fa.
+  destruct (tc_inv _ _ _ Htc) as (tys & Ht & Hr). pose proof (tcs_Forall2 _ _ Ht) as F2.
+  destruct o; cbn [ok_node] in Hn; try discriminate Hn; cbn [tc_rule] in Hr.
+  - destruct tys as [|x [|? ?]]; try discriminate. destruct (ty_eqb x TBool); discriminate.
+  - destruct tys as [|x [|? ?]]; try discriminate. destruct (ty_eqb x TBool); discriminate.
+  - apply ttt_out in Hr. discriminate.
+  - apply ttt_out in Hr. discriminate.
+  - apply ttt_out in Hr. discriminate.
+  - apply ttt_out in Hr. discriminate.
+  - apply ttt_out in Hr. discriminate.
+  - destruct tys; [|discriminate]. inversion Hr; subst. cbn in Hn. now apply Z.ltb_lt.
+  - destruct t; try discriminate. destruct (tys_eqb tys ps); [|discriminate]. inversion Hr; subst. apply andb_true_iff in Hn. destruct Hn as [Hn _]. cbn in Hn. now apply Z.ltb_lt.
+  - destruct tys; discriminate.
+  - destruct tys; discriminate.
+  - destruct tys; discriminate.
+  - destruct tys; discriminate.
+  - apply arith_rule_inv in Hr. destruct Hr as [[E|E] _]; discriminate E.
+  - apply arith_rule_inv in Hr. destruct Hr as [[E|E] _]; discriminate E.
+  - apply arith_rule_inv in Hr. destruct Hr as [[E|E] _]; discriminate E.
+  - apply rel_rule_inv in Hr. destruct Hr as [E _]; discriminate E.
+  - apply rel_rule_inv in Hr. destruct Hr as [E _]; discriminate E.
+  - apply equals_out in Hr. discriminate.
+  - (* ite *) destruct args as [|c [|a [|b [|? ?]]]]; try discriminate.
+    inversion F2 as [|? tc0 ? ? Hc F2']; subst. inversion F2' as [|? ta ? ? Ha F2'']; subst.
+    inversion F2'' as [|? tb ? ? Hb F3]; subst. inversion F3; subst.
+    cbn in Hr. destruct (ty_eqb tc0 TBool && ty_eqb ta tb); [|discriminate]. inversion Hr; subst.
+    inversion IH as [|? ? _ IH']; subst. inversion Fa as [|? ? _ Fa']; subst.
+    apply (Forall_inv IH'); auto. exact (Forall_inv Fa').
+  - apply ttt_out in Hr. discriminate.
+  - destruct tys; [|discriminate]. inversion Hr; subst. apply andb_true_iff in Hn. destruct Hn as [Hn _]. apply andb_true_iff in Hn. destruct Hn as [Hn _]. now apply Z.ltb_lt.
+  - (* bv operators *)
+    apply andb_true_iff in Hn. destruct Hn as [Hw0 Hk]. apply Z.ltb_lt in Hw0.
+    destruct k; try discriminate Hk; cbn in Hr;
+      try (destruct (forallb (fun a => ty_eqb a (TBV w0)) tys); [|discriminate]; inversion Hr; subst; exact Hw0).
+    + destruct tys as [|ta [|tb ?]]; try discriminate; destruct ta as [| | | |wa| | |]; try discriminate;
+      destruct tb as [| | | |wb| | |]; try discriminate. destruct (wa + wb =? w0)%Z; [|discriminate]. inversion Hr; subst; exact Hw0.
+    + apply andb_true_iff in Hk. destruct Hk as [_ Hw1]. apply Z.eqb_eq in Hw1. subst w0.
+      destruct tys as [|ta [|tb [|? ?]]]; try discriminate. destruct (ty_eqb ta tb && is_bv ta); [|discriminate]. inversion Hr; subst; lia.
+  - destruct k; try discriminate Hn; apply bv_to_bool_out in Hr; discriminate.
+  - (* extract *) destruct tys as [|ta ?]; try discriminate. destruct ta as [| | | |wa| | |]; try discriminate.
+    destruct ((s >=? wa)%Z || (e >=? wa)%Z); [discriminate|]. destruct (wa <? w0)%Z; [discriminate|].
+    destruct (Z.eqb_spec w0 (e - s + 1)); [|discriminate]. cbn in Hr. inversion Hr; subst.
+    apply andb_true_iff in Hn. destruct Hn as [_ Hse]. apply Z.leb_le in Hse. lia.
+  - (* rol *) destruct ((w0 <? k)%Z || (w0 <? 0)%Z || (k <? 0)%Z); [discriminate|].
+    destruct tys as [|ta ?]; try discriminate. destruct ta as [| | | |wa| | |]; try discriminate.
+    destruct (w0 =? wa)%Z; [|discriminate]. inversion Hr; subst. apply andb_true_iff in Hn. destruct Hn as [_ Hn]. now apply Z.ltb_lt.
+  - (* ror *) destruct ((w0 <? k)%Z || (w0 <? 0)%Z || (k <? 0)%Z); [discriminate|].
+    destruct tys as [|ta ?]; try discriminate. destruct ta as [| | | |wa| | |]; try discriminate.
+    destruct (w0 =? wa)%Z; [|discriminate]. inversion Hr; subst. apply andb_true_iff in Hn. destruct Hn as [_ Hn]. now apply Z.ltb_lt.
+  - (* zext *) destruct args as [|a [|? ?]]; try discriminate. inversion F2 as [|? ta ? ? Ha F2']; subst. inversion F2'; subst.
+    destruct ta as [| | | |wa| | |]; try discriminate. destruct (Z.ltb_spec w0 wa); [discriminate|]. destruct (w0 <? 0)%Z; [discriminate|].
+    cbn in Hr. inversion Hr; subst. pose proof (Forall_inv IH wa (Forall_inv Fa) Ha). lia.
+  - (* sext *) destruct args as [|a [|? ?]]; try discriminate. inversion F2 as [|? ta ? ? Ha F2']; subst. inversion F2'; subst.
+    destruct ta as [| | | |wa| | |]; try discriminate. destruct (Z.ltb_spec w0 wa); [discriminate|]. destruct (w0 <? 0)%Z; [discriminate|].
+    cbn in Hr. inversion Hr; subst. pose proof (Forall_inv IH wa (Forall_inv Fa) Ha). lia.
   - apply arith_rule_inv in Hr. destruct Hr as [[E|E] _]; discriminate E.
   - destruct tys as [|ta [|tb ?]]; try discriminate. destruct (negb (ty_eqb ta tb)); [discriminate|]. destruct ta; discriminate.
   - destruct tys as [|ta ?]; try discriminate. destruct (is_bv ta); discriminate.
@@ -2097,7 +2351,7 @@ Proof.
   cbn. rewrite (proj2 (Z.ltb_lt 0 w) Hw), (proj2 (Z.leb_le 0 v) H), (proj2 (Z.ltb_lt v (2 ^ w)) H0). reflexivity.
 Qed.
 Lemma bvterm_bvop k w a b : 0 < w ->
-  (match k with BAnd | BOr | BXor | BAdd | BSub | BMul | BUdiv | BUrem | BLshl | BLshr => True | _ => False end) ->
+  (match k with BAnd | BOr | BXor | BAdd | BSub | BMul | BUdiv | BUrem | BLshl | BLshr | BSdiv | BSrem | BAshr => True | _ => False end) ->
   bvterm w a -> bvterm w b -> mk_bvop k a b = T (OBV k w) [a; b] /\ bvterm w (T (OBV k w) [a; b]).
 Proof.
   intros Hw Hk [Oa Ta] [Ob Tb]. unfold mk_bvop. rewrite (bv_width_ok a w Oa Ta). split; auto. split.
@@ -2133,7 +2387,7 @@ Proof.
   destruct (bvterm_eval w r N) as [Ev _]. now rewrite Ev, Z.
 Qed.
 Lemma bv_res_node k w a b : 0 < w ->
-  (match k with BAnd | BOr | BXor | BAdd | BSub | BMul | BUdiv | BUrem | BLshl | BLshr => True | _ => False end) ->
+  (match k with BAnd | BOr | BXor | BAdd | BSub | BMul | BUdiv | BUrem | BLshl | BLshr | BSdiv | BSrem | BAshr => True | _ => False end) ->
   bvterm w a -> bvterm w b -> forall x, bvop_sem k w [VBV w (bvzI a); VBV w (bvzI b)] = VBV w x -> bv_res w (mk_bvop k a b) x.
 Proof.
   intros Hw Hk Na Nb x E. destruct (bvterm_bvop k w a b Hw Hk Na Nb) as [-> N]. split; auto. now rewrite bvz_bvop.
@@ -2444,6 +2698,367 @@ Proof.
     + rewrite tc_tcs. cbn [tcs]. rewrite Ta. reflexivity.
     + rewrite eval_plain by reflexivity. cbn [map op_sem]. now rewrite Ea.
 Qed.
+(* ------------------------------------------------------------------ signed operators *)
+Lemma bv_res_bvz w r x : bv_res w r x -> bvterm w r /\ bvzI r = x.
+Proof. intros [N E]. split; auto. unfold bvz. now rewrite E. Qed.
+Lemma bvc_pos v w : okt (TBVC v w) = true -> 0 < w.
+Proof. intros H. apply okt_node in H. cbn in H. apply andb_true_iff in H. destruct H as [H _]. apply andb_true_iff in H. destruct H as [H _]. now apply Z.ltb_lt. Qed.
+Lemma bv_signed_shape w a s : bvterm w a -> bv_signed_value a = Some s ->
+  a = TBVC (bvzI a) w /\ 0 < w /\ in_range w (bvzI a) /\ s = to_signed w (bvzI a).
+Proof.
+  intros Na E. unfold bv_signed_value in E. destruct (top a) eqn:Et; try discriminate. inversion E; subst.
+  destruct (top_bvc w a _ _ Na Et) as (Ea & -> & R & Z). rewrite Z. rewrite Ea in Na.
+  pose proof (bvc_pos _ _ (proj1 Na)) as Hw. repeat split; try apply R; auto. now apply twos_complement_signed.
+Qed.
+Lemma bv_signed_none a : bv_signed_value a = None -> bv_value a = None.
+Proof. unfold bv_signed_value, bv_value. destruct (top a); auto; discriminate. Qed.
+Lemma r_bv_slt_sound wa a b r : bvterm wa a -> bvterm wa b -> r_bv_scmp BSlt Z.ltb false a b = Some r ->
+  bterm r /\ bv I r = Z.ltb (to_signed wa (bvzI a)) (to_signed wa (bvzI b)).
+Proof.
+  intros Na Nb E. unfold r_bv_scmp in E.
+  assert (Hnode : bterm (mk_bvrel BSlt a b) /\ bv I (mk_bvrel BSlt a b) = Z.ltb (to_signed wa (bvzI a)) (to_signed wa (bvzI b))).
+  { destruct Na as [Oa Ta]. destruct Nb as [Ob Tb]. unfold mk_bvrel. split; [split|].
+    - apply okt_intro; [reflexivity | repeat constructor; auto].
+    - rewrite tc_tcs. cbn [tcs]. rewrite Ta, Tb. cbn. now rewrite Z.eqb_refl.
+    - unfold bv. rewrite eval_plain by reflexivity. cbn [map op_sem].
+      destruct (bvterm_eval wa a (conj Oa Ta)) as [-> _]. destruct (bvterm_eval wa b (conj Ob Tb)) as [-> _]. reflexivity. }
+  assert (Hrest : (if term_eqb a b then Some (mk_bool false) else Some (mk_bvrel BSlt a b)) = Some r ->
+                  bterm r /\ bv I r = Z.ltb (to_signed wa (bvzI a)) (to_signed wa (bvzI b))).
+  { intros E'. destruct (term_eqb a b) eqn:Eq.
+    - apply term_eqb_sound in Eq. subst b. inversion E'; subst. split; [apply bterm_TBoolC|]. rewrite bv_TBoolC. symmetry. apply Z.ltb_irrefl.
+    - inversion E'; subst. exact Hnode. }
+  destruct (bv_signed_value a) as [sa|] eqn:Sa; [destruct (bv_signed_value b) as [sb|] eqn:Sb|]; try exact (Hrest E).
+  destruct (bv_signed_shape wa a sa Na Sa) as (_ & _ & _ & ->). destruct (bv_signed_shape wa b sb Nb Sb) as (_ & _ & _ & ->).
+  inversion E; subst. split; [apply bterm_TBoolC | reflexivity].
+Qed.
+Lemma r_bv_sle_sound wa a b r : bvterm wa a -> bvterm wa b -> r_bv_scmp BSle Z.leb true a b = Some r ->
+  bterm r /\ bv I r = Z.leb (to_signed wa (bvzI a)) (to_signed wa (bvzI b)).
+Proof.
+  intros Na Nb E. unfold r_bv_scmp in E.
+  assert (Hnode : bterm (mk_bvrel BSle a b) /\ bv I (mk_bvrel BSle a b) = Z.leb (to_signed wa (bvzI a)) (to_signed wa (bvzI b))).
+  { destruct Na as [Oa Ta]. destruct Nb as [Ob Tb]. unfold mk_bvrel. split; [split|].
+    - apply okt_intro; [reflexivity | repeat constructor; auto].
+    - rewrite tc_tcs. cbn [tcs]. rewrite Ta, Tb. cbn. now rewrite Z.eqb_refl.
+    - unfold bv. rewrite eval_plain by reflexivity. cbn [map op_sem].
+      destruct (bvterm_eval wa a (conj Oa Ta)) as [-> _]. destruct (bvterm_eval wa b (conj Ob Tb)) as [-> _]. reflexivity. }
+  assert (Hrest : (if term_eqb a b then Some (mk_bool true) else Some (mk_bvrel BSle a b)) = Some r ->
+                  bterm r /\ bv I r = Z.leb (to_signed wa (bvzI a)) (to_signed wa (bvzI b))).
+  { intros E'. destruct (term_eqb a b) eqn:Eq.
+    - apply term_eqb_sound in Eq. subst b. inversion E'; subst. split; [apply bterm_TBoolC|]. rewrite bv_TBoolC. symmetry. apply Z.leb_refl.
+    - inversion E'; subst. exact Hnode. }
+  destruct (bv_signed_value a) as [sa|] eqn:Sa; [destruct (bv_signed_value b) as [sb|] eqn:Sb|]; try exact (Hrest E).
+  destruct (bv_signed_shape wa a sa Na Sa) as (_ & _ & _ & ->). destruct (bv_signed_shape wa b sb Nb Sb) as (_ & _ & _ & ->).
+  inversion E; subst. split; [apply bterm_TBoolC | reflexivity].
+Qed.
+Lemma neg_c_sound w a r : 0 < w -> bvterm w a -> neg_c a = Some r -> bvterm w r /\ bvzI r = bv_neg w (bvzI a).
+Proof.
+  intros Hw Na E. unfold neg_c in E. rewrite (bv_width_ok a w (proj1 Na) (proj2 Na)) in E.
+  apply bv_res_bvz. now apply r_bv_neg_sound.
+Qed.
+Lemma udiv_c_sound w a b r : 0 < w -> bvterm w a -> bvterm w b -> r_bv_udiv (bv_width a) a b = Some r ->
+  bvterm w r /\ bvzI r = bv_udiv w (bvzI a) (bvzI b).
+Proof.
+  intros Hw Na Nb E. rewrite (bv_width_ok a w (proj1 Na) (proj2 Na)) in E. apply bv_res_bvz. now apply r_bv_udiv_sound.
+Qed.
+Lemma urem_c_sound w a b r : 0 < w -> bvterm w a -> bvterm w b -> r_bv_urem (bv_width a) a b = Some r ->
+  bvterm w r /\ bvzI r = bv_urem w (bvzI a) (bvzI b).
+Proof.
+  intros Hw Na Nb E. rewrite (bv_width_ok a w (proj1 Na) (proj2 Na)) in E. apply bv_res_bvz. now apply r_bv_urem_sound.
+Qed.
+Lemma bv_res_of w r x : bvterm w r -> bvzI r = x -> bv_res w r x.
+Proof. intros N E. split; auto. destruct (bvterm_eval w r N) as [Ev _]. now rewrite Ev, E. Qed.
+
+Lemma r_bv_sdiv_sound w a b r : 0 < w -> bvterm w a -> bvterm w b -> r_bv_sdiv a b = Some r ->
+  bv_res w r (bv_sdiv w (bvzI a) (bvzI b)).
+Proof.
+  intros Hw Na Nb E. unfold r_bv_sdiv in E.
+  assert (Hnode : Some (mk_bvop BSdiv a b) = Some r -> bv_res w r (bv_sdiv w (bvzI a) (bvzI b))).
+  { intros E'. inversion E'; subst. apply bv_res_node; auto; exact Logic.I. }
+  destruct (bv_signed_value a) as [sa|] eqn:Sa; [|exact (Hnode E)].
+  destruct (bv_signed_value b) as [sb|] eqn:Sb; [|exact (Hnode E)].
+  destruct (bv_signed_shape w a sa Na Sa) as (_ & _ & Ra & ->). destruct (bv_signed_shape w b sb Nb Sb) as (_ & _ & Rb & ->).
+  rewrite (signed_neg_msb w _ Hw Ra), (signed_neg_msb w _ Hw Rb) in E. unfold bv_sdiv. unfold Simplifier.bind in E.
+  destruct (msb w (bvzI a)), (msb w (bvzI b)); cbn [negb andb] in E.
+  - destruct (neg_c a) as [nl|] eqn:E1; [|discriminate]. destruct (neg_c b) as [nr|] eqn:E2; [|discriminate].
+    destruct (neg_c_sound w a nl Hw Na E1) as [Nl Zl]. destruct (neg_c_sound w b nr Hw Nb E2) as [Nr Zr].
+    destruct (udiv_c_sound w nl nr r Hw Nl Nr E) as [N Z]. apply bv_res_of; auto. now rewrite Z, Zl, Zr.
+  - destruct (neg_c a) as [nl|] eqn:E1; [|discriminate]. destruct (neg_c_sound w a nl Hw Na E1) as [Nl Zl].
+    destruct (r_bv_udiv (bv_width nl) nl b) as [dv|] eqn:E2; [|discriminate].
+    destruct (udiv_c_sound w nl b dv Hw Nl Nb E2) as [Nd Zd]. destruct (neg_c_sound w dv r Hw Nd E) as [N Z].
+    apply bv_res_of; auto. now rewrite Z, Zd, Zl.
+  - destruct (neg_c b) as [nr|] eqn:E1; [|discriminate]. destruct (neg_c_sound w b nr Hw Nb E1) as [Nr Zr].
+    destruct (r_bv_udiv (bv_width a) a nr) as [dv|] eqn:E2; [|discriminate].
+    destruct (udiv_c_sound w a nr dv Hw Na Nr E2) as [Nd Zd]. destruct (neg_c_sound w dv r Hw Nd E) as [N Z].
+    apply bv_res_of; auto. now rewrite Z, Zd, Zr.
+  - destruct (udiv_c_sound w a b r Hw Na Nb E) as [N Z]. apply bv_res_of; auto.
+Qed.
+Lemma r_bv_srem_sound w a b r : 0 < w -> bvterm w a -> bvterm w b -> r_bv_srem a b = Some r ->
+  bv_res w r (bv_srem w (bvzI a) (bvzI b)).
+Proof.
+  intros Hw Na Nb E. unfold r_bv_srem in E.
+  assert (Hnode : Some (mk_bvop BSrem a b) = Some r -> bv_res w r (bv_srem w (bvzI a) (bvzI b))).
+  { intros E'. inversion E'; subst. apply bv_res_node; auto; exact Logic.I. }
+  destruct (bv_signed_value a) as [sa|] eqn:Sa; [|exact (Hnode E)].
+  destruct (bv_signed_value b) as [sb|] eqn:Sb; [|exact (Hnode E)].
+  destruct (bv_signed_shape w a sa Na Sa) as (_ & _ & Ra & ->). destruct (bv_signed_shape w b sb Nb Sb) as (_ & _ & Rb & ->).
+  rewrite (signed_neg_msb w _ Hw Ra), (signed_neg_msb w _ Hw Rb) in E. unfold bv_srem. unfold Simplifier.bind in E.
+  destruct (msb w (bvzI a)), (msb w (bvzI b)).
+  - destruct (neg_c a) as [nl|] eqn:E1; [|discriminate]. destruct (neg_c b) as [nr|] eqn:E2; [|discriminate].
+    destruct (neg_c_sound w a nl Hw Na E1) as [Nl Zl]. destruct (neg_c_sound w b nr Hw Nb E2) as [Nr Zr].
+    destruct (r_bv_urem (bv_width nl) nl nr) as [rm|] eqn:E3; [|discriminate].
+    destruct (urem_c_sound w nl nr rm Hw Nl Nr E3) as [Nm Zm]. destruct (neg_c_sound w rm r Hw Nm E) as [N Z].
+    apply bv_res_of; auto. now rewrite Z, Zm, Zl, Zr.
+  - destruct (neg_c a) as [nl|] eqn:E1; [|discriminate]. destruct (neg_c_sound w a nl Hw Na E1) as [Nl Zl].
+    destruct (r_bv_urem (bv_width nl) nl b) as [rm|] eqn:E3; [|discriminate].
+    destruct (urem_c_sound w nl b rm Hw Nl Nb E3) as [Nm Zm]. destruct (neg_c_sound w rm r Hw Nm E) as [N Z].
+    apply bv_res_of; auto. now rewrite Z, Zm, Zl.
+  - destruct (neg_c b) as [nr|] eqn:E2; [|discriminate]. destruct (neg_c_sound w b nr Hw Nb E2) as [Nr Zr].
+    destruct (r_bv_urem (bv_width a) a nr) as [rm|] eqn:E3; [|discriminate].
+    destruct (urem_c_sound w a nr rm Hw Na Nr E3) as [Nm Zm]. inversion E; subst. apply bv_res_of; auto. now rewrite Zm, Zr.
+  - destruct (r_bv_urem (bv_width a) a b) as [rm|] eqn:E3; [|discriminate].
+    destruct (urem_c_sound w a b rm Hw Na Nb E3) as [Nm Zm]. inversion E; subst. apply bv_res_of; auto.
+Qed.
+Lemma r_bv_ashr_sound w a b r : 0 < w -> bvterm w a -> bvterm w b -> r_bv_ashr w a b = Some r ->
+  bv_res w r (bv_ashr w (bvzI a) (bvzI b)).
+Proof.
+  intros Hw Na Nb E. unfold r_bv_ashr in E.
+  assert (Hnode : Some (mk_bvop BAshr a b) = Some r -> bv_res w r (bv_ashr w (bvzI a) (bvzI b))).
+  { intros E'. inversion E'; subst. apply bv_res_node; auto; exact Logic.I. }
+  destruct (bv_signed_value a) as [sa|] eqn:Sa; [|exact (Hnode E)].
+  destruct (bv_value b) as [rv|] eqn:Vb; [|exact (Hnode E)].
+  destruct (bv_signed_shape w a sa Na Sa) as (_ & _ & Ra & ->). destruct (bv_value_shape w b rv Nb Vb) as (_ & [R0 R1] & Zb).
+  rewrite (signed_neg_msb w _ Hw Ra) in E. unfold Simplifier.bind in E.
+  destruct (r_bv_lshr a b) as [ret|] eqn:El; [|discriminate].
+  destruct (bv_res_bvz w ret _ (r_bv_lshr_sound w a b ret Hw Na Nb El)) as [Nret Zret].
+  pose proof Ra as [A0 A1]. rewrite Zb in *. unfold bv_ashr, to_signed. unfold msb in E.
+  assert (Hp1 : 0 < 2 ^ (w - 1)) by (apply pow2_pos; lia). assert (Hpw : 0 < 2 ^ w) by (apply pow2_pos; lia).
+  assert (E2 : 2 ^ w = 2 * 2 ^ (w - 1)) by (rewrite <- Z.pow_succ_r by lia; f_equal; lia).
+  set (k := Z.min rv w). assert (Hk : 0 <= k <= w) by (unfold k; lia).
+  assert (Hpk : 0 < 2 ^ k) by (apply pow2_pos; lia).
+  assert (Hlshr : bv_lshr w (bvzI a) rv = bvzI a / 2 ^ k).
+  { unfold bv_lshr, k. destruct (Z.leb_spec w rv).
+    - rewrite Z.min_r by lia. symmetry. apply Z.div_small. lia.
+    - now rewrite Z.min_l by lia. }
+  destruct (Z.leb_spec (2 ^ (w - 1)) (bvzI a)) as [Hneg|Hpos].
+  - (* negative: the top bits are set *)
+    rewrite (proj2 (Z.ltb_ge (bvzI a) (2 ^ (w - 1))) Hneg).
+    destruct (bv_value ret) as [n|] eqn:Vr; [|discriminate].
+    destruct (bv_value_shape w ret n Nret Vr) as (_ & _ & Zn). rewrite Zret, Hlshr in Zn. subst n.
+    assert (Hpad : (if rv <? w then rv else w) = k).
+    { unfold k. destruct (Z.ltb_spec rv w); [now rewrite Z.min_l by lia | now rewrite Z.min_r by lia]. }
+    rewrite Hpad in E. unfold zrange in E. replace (w - (w - k)) with k in E by lia.
+    assert (Hq : 0 <= bvzI a / 2 ^ k < 2 ^ (w - k)).
+    { split; [apply Z.div_pos; lia|]. apply Z.div_lt_upper_bound; [lia|]. rewrite <- Z.pow_add_r by lia. replace (k + (w - k)) with w by lia. lia. }
+    rewrite (set_bits_range (w - k) (bvzI a / 2 ^ k) ltac:(lia) Hq (Z.to_nat k)) in E.
+    rewrite Z2Nat.id in E by lia. replace (w - k + k) with w in E by lia.
+    rewrite (ashr_neg_fold w (bvzI a) k Hw Ra Hk) in E. now apply bv_res_mk.
+  - rewrite (proj2 (Z.ltb_lt (bvzI a) (2 ^ (w - 1))) Hpos). inversion E; subst.
+    apply bv_res_of; auto. rewrite Zret, Hlshr. unfold bvmod. symmetry. apply Z.mod_small.
+    split; [apply Z.div_pos; lia|]. apply Z.le_lt_trans with (bvzI a); [|lia]. apply Z.div_le_upper_bound; [lia|]. nia.
+Qed.
+(* ------------------------------------------------------------------ extract, rotate, extend *)
+Lemma const_bits w a : bvterm w a -> is_bv_constant a = true ->
+  exists v, a = TBVC v w /\ in_range w v /\ 0 < w /\ bvzI a = v /\ bv_bin_str a = Some (bits_msb (Z.to_nat w) v).
+Proof.
+  intros Na C. unfold is_bv_constant in C. destruct (top a) eqn:Et; try discriminate.
+  destruct (top_bvc w a _ _ Na Et) as (Ea & -> & R & Z). exists v. rewrite Ea in Na. pose proof (bvc_pos _ _ (proj1 Na)) as Hw.
+  repeat split; try apply R; auto. rewrite Ea. cbn. f_equal. apply bin_str_fits; auto.
+Qed.
+Lemma zlen_bits n v : zlen (bits_msb n v) = Z.of_nat n.
+Proof. unfold zlen. now rewrite bits_msb_length. Qed.
+Lemma mk_bv_bits_rev X w r : X <> [] -> mk_bv_bits (rev X) w = Some r ->
+  (match w with Some w' => w' = zlen X | None => True end) /\ mk_bv (lsb_val X) (zlen X) = Some r.
+Proof.
+  intros HX E. unfold mk_bv_bits in E. rewrite (int_of_bits_rev X HX) in E.
+  assert (Hl : zlen (rev X) = zlen X) by (unfold zlen; now rewrite rev_length). rewrite Hl in E.
+  destruct w as [w'|]; [|auto]. destruct (Z.eqb_spec w' (zlen X)); [auto | discriminate].
+Qed.
+Lemma lsb_bits_nonempty n v : (0 < n)%nat -> lsb_bits n v <> [].
+Proof. intros Hn H. apply (f_equal (@List.length bool)) in H. rewrite lsb_bits_length in H. cbn in H. lia. Qed.
+
+Lemma r_bv_extract_sound wa s e a r : bvterm wa a -> 0 <= s -> s <= e -> e < wa ->
+  r_bv_extract s e a = Some r -> bv_res (e - s + 1) r (bv_extract (bvzI a) s e).
+Proof.
+  intros Na Hs Hse He E. unfold r_bv_extract in E. destruct (is_bv_constant a) eqn:C.
+  - destruct (const_bits wa a Na C) as (v & -> & [V0 V1] & Hw & Zv & Hb). rewrite Hb in E. unfold Simplifier.bind in E. rewrite Zv.
+    unfold py_reverse in E. rewrite rev_bits_msb in E.
+    assert (HL : zlen (lsb_bits (Z.to_nat wa) v) = wa) by (unfold zlen; rewrite lsb_bits_length; apply Z2Nat.id; lia).
+    rewrite py_slice_in in E by (rewrite ?HL; lia).
+    assert (Hm1 : (Z.to_nat s <= Z.to_nat wa)%nat) by (apply Z2Nat.inj_le; lia).
+    assert (Hm2 : (Z.to_nat (e + 1 - s) <= Z.to_nat wa - Z.to_nat s)%nat) by (rewrite <- Z2Nat.inj_sub by lia; apply Z2Nat.inj_le; lia).
+    assert (Hm3 : (0 < Z.to_nat (e + 1 - s))%nat) by (apply (Z2Nat.inj_lt 0); lia).
+    rewrite lsb_bits_skip in E by (auto; lia). rewrite lsb_bits_first in E by exact Hm2. rewrite Z2Nat.id in E by lia.
+    destruct (mk_bv_bits_rev _ _ _ (lsb_bits_nonempty _ _ Hm3) E) as [_ E'].
+    unfold zlen in E'. rewrite lsb_bits_length, Z2Nat.id in E' by lia.
+    rewrite lsb_val_bits in E' by (apply Z.div_pos; [lia | apply pow2_pos; lia]). rewrite Z2Nat.id in E' by lia.
+    replace (e + 1 - s) with (e - s + 1) in E' by lia. apply bv_res_mk; auto. lia.
+  - unfold mk_bvextract in E. rewrite (bv_width_ok a wa (proj1 Na) (proj2 Na)) in E.
+    rewrite (proj2 (Z.ltb_ge e s)) in E by lia. rewrite (proj2 (Z.ltb_ge s 0)) in E by lia. cbn [orb] in E.
+    rewrite (proj2 (Z.ltb_ge wa (e - s + 1))) in E by lia. inversion E; subst. destruct Na as [Oa Ta].
+    assert (Tc : tc (T (OBVExtract (e - s + 1) s e) [a]) = Some (TBV (e - s + 1))).
+    { rewrite tc_tcs. cbn [tcs]. rewrite Ta. cbn.
+      assert (H1 : (s >=? wa) = false) by (rewrite Z.geb_leb; apply Z.leb_gt; lia).
+      assert (H2 : (e >=? wa) = false) by (rewrite Z.geb_leb; apply Z.leb_gt; lia).
+      rewrite H1, H2. cbn [orb]. rewrite (proj2 (Z.ltb_ge wa (e - s + 1))) by lia. rewrite Z.eqb_refl. reflexivity. }
+    split; [split; auto|].
+    + apply okt_intro; [|repeat constructor; auto]. cbn. rewrite (proj2 (Z.leb_le 0 s)), (proj2 (Z.leb_le s e)) by lia. reflexivity.
+    + rewrite eval_plain by reflexivity. cbn [map op_sem]. destruct (bvterm_eval wa a (conj Oa Ta)) as [-> _]. reflexivity.
+Qed.
+Lemma zlen_lsb n v : zlen (lsb_bits n v) = Z.of_nat n.
+Proof. unfold zlen. now rewrite lsb_bits_length. Qed.
+Lemma bvterm_rot (mk : Z -> Z -> op) w k a : (mk = OBVRol \/ mk = OBVRor) -> 0 < w -> 0 <= k <= w -> bvterm w a -> bvterm w (T (mk w k) [a]).
+Proof.
+  intros Hm Hw Hk [Oa Ta]. split.
+  - apply okt_intro; [|repeat constructor; auto]. destruct Hm as [-> | ->]; cbn; now rewrite (proj2 (Z.ltb_lt 0 w) Hw).
+  - rewrite tc_tcs. cbn [tcs]. rewrite Ta. destruct Hm as [-> | ->]; cbn;
+      rewrite (proj2 (Z.ltb_ge w k)), (proj2 (Z.ltb_ge w 0)), (proj2 (Z.ltb_ge k 0)) by lia; cbn; now rewrite Z.eqb_refl.
+Qed.
+(* value of the concatenation of two runs of bits of v *)
+Lemma r_bv_ror_sound w k a r : 0 < w -> 0 <= k <= w -> bvterm w a -> r_bv_ror k a = Some r ->
+  bv_res w r (bv_ror w (bvzI a) k).
+Proof.
+  intros Hw Hk Na E. unfold r_bv_ror in E. destruct (is_bv_constant a) eqn:C.
+  - destruct (const_bits w a Na C) as (v & -> & [V0 V1] & _ & Zv & Hb). rewrite Hb in E. unfold Simplifier.bind in E. rewrite Zv.
+    unfold py_reverse in E. rewrite rev_bits_msb in E.
+    assert (HL : zlen (lsb_bits (Z.to_nat w) v) = w) by (rewrite zlen_lsb; apply Z2Nat.id; lia).
+    rewrite py_slice_in in E by (rewrite ?HL; lia). rewrite py_slice_from in E by (rewrite HL; lia).
+    cbn [skipn Z.to_nat] in E. rewrite Z.sub_0_r in E.
+    assert (Hm1 : (Z.to_nat k <= Z.to_nat w)%nat) by (apply Z2Nat.inj_le; lia).
+    rewrite lsb_bits_first, lsb_bits_skip in E by (auto; lia). rewrite Z2Nat.id in E by lia.
+    assert (HX : lsb_bits (Z.to_nat w - Z.to_nat k) (v / 2 ^ k) ++ lsb_bits (Z.to_nat k) v <> []).
+    { intros H. apply (f_equal (@List.length bool)) in H. rewrite app_length, !lsb_bits_length in H. cbn in H.
+      assert (0 < Z.to_nat w)%nat by (apply (Z2Nat.inj_lt 0); lia). lia. }
+    destruct (mk_bv_bits_rev _ _ _ HX E) as [_ E'].
+    assert (Hlen : zlen (lsb_bits (Z.to_nat w - Z.to_nat k) (v / 2 ^ k) ++ lsb_bits (Z.to_nat k) v) = w).
+    { unfold zlen. rewrite app_length, !lsb_bits_length. rewrite Nat2Z.inj_add, Nat2Z.inj_sub, !Z2Nat.id by lia. lia. }
+    rewrite Hlen in E'. rewrite lsb_val_app, lsb_bits_length in E'.
+    assert (Hpk : 0 < 2 ^ k) by (apply pow2_pos; lia).
+    rewrite !lsb_val_bits in E' by (try lia; apply Z.div_pos; lia).
+    rewrite Nat2Z.inj_sub, !Z2Nat.id in E' by lia.
+    assert (Hq : 0 <= v / 2 ^ k < 2 ^ (w - k)).
+    { split; [apply Z.div_pos; lia|]. apply Z.div_lt_upper_bound; [lia|]. rewrite <- Z.pow_add_r by lia. replace (k + (w - k)) with w by lia. lia. }
+    rewrite (Z.mod_small (v / 2 ^ k)) in E' by lia.
+    rewrite (ror_val w v k Hw (conj V0 V1) Hk). now apply bv_res_mk.
+  - inversion E; subst. unfold mk_bvror. rewrite (bv_width_ok a w (proj1 Na) (proj2 Na)).
+    split; [apply (bvterm_rot OBVRor); auto|]. rewrite eval_plain by reflexivity. cbn [map op_sem].
+    destruct (bvterm_eval w a Na) as [-> _]. reflexivity.
+Qed.
+Lemma py_slice_neg_to {A} (s : list A) k : 0 < k <= zlen s -> py_slice s (Some 0) (Some (- k)) = firstn (Z.to_nat (zlen s - k)) s.
+Proof.
+  intros Hk. unfold py_slice, norm_idx. cbn [Z.ltb Z.compare].
+  rewrite (proj2 (Z.ltb_ge (zlen s) 0)) by (unfold zlen; lia).
+  rewrite (proj2 (Z.ltb_lt (- k) 0)) by lia. rewrite (proj2 (Z.ltb_ge (- k + zlen s) 0)) by lia.
+  destruct (Z.ltb_spec 0 (- k + zlen s)).
+  - cbn [Z.to_nat skipn]. f_equal. f_equal. lia.
+  - replace (zlen s - k) with 0 by lia. reflexivity.
+Qed.
+Lemma py_slice_neg_from {A} (s : list A) k : 0 < k <= zlen s -> py_slice s (Some (- k)) None = skipn (Z.to_nat (zlen s - k)) s.
+Proof.
+  intros Hk. unfold py_slice, norm_idx.
+  rewrite (proj2 (Z.ltb_lt (- k) 0)) by lia. rewrite (proj2 (Z.ltb_ge (- k + zlen s) 0)) by lia.
+  rewrite (proj2 (Z.ltb_lt (- k + zlen s) (zlen s))) by lia.
+  replace (- k + zlen s) with (zlen s - k) by lia. apply firstn_all2. rewrite skipn_length. unfold zlen in *. lia.
+Qed.
+Lemma r_bv_rol_sound w k a r : 0 < w -> 0 <= k <= w -> bvterm w a -> r_bv_rol k a = Some r ->
+  bv_res w r (bv_rol w (bvzI a) k).
+Proof.
+  intros Hw Hk Na E. unfold r_bv_rol in E. destruct (is_bv_constant a) eqn:C.
+  - destruct (const_bits w a Na C) as (v & -> & [V0 V1] & _ & Zv & Hb). rewrite Hb in E. unfold Simplifier.bind in E. rewrite Zv.
+    unfold py_reverse in E. rewrite rev_bits_msb in E.
+    assert (HL : zlen (lsb_bits (Z.to_nat w) v) = w) by (rewrite zlen_lsb; apply Z2Nat.id; lia).
+    assert (Hnw : (0 < Z.to_nat w)%nat) by (apply (Z2Nat.inj_lt 0); lia).
+    destruct (Z.eq_dec k 0) as [->|Hk0].
+    + (* no rotation: bitstr[0:-0] is empty, bitstr[-0:] is everything *)
+      cbn [Z.opp] in E. rewrite py_slice_in in E by (rewrite ?HL; lia). rewrite py_slice_from in E by (rewrite HL; lia).
+      cbn [Z.to_nat Z.sub firstn skipn] in E. rewrite app_nil_r in E.
+      destruct (mk_bv_bits_rev _ _ _ (lsb_bits_nonempty _ _ Hnw) E) as [_ E']. rewrite HL in E'.
+      rewrite lsb_val_bits, Z2Nat.id in E' by lia. rewrite Z.mod_small in E' by lia.
+      destruct (rol_val w v 0 Hw (conj V0 V1) ltac:(lia)) as [-> _].
+      rewrite Z.sub_0_r, Z.pow_0_r, Z.mul_1_l, Z.div_small, Z.mod_small by lia. now apply bv_res_mk.
+    + rewrite py_slice_neg_to, py_slice_neg_from in E by (rewrite HL; lia). rewrite HL in E.
+      assert (Hm1 : (Z.to_nat (w - k) <= Z.to_nat w)%nat) by (apply Z2Nat.inj_le; lia).
+      rewrite lsb_bits_first, lsb_bits_skip in E by (auto; lia). rewrite Z2Nat.id in E by lia.
+      assert (HX : lsb_bits (Z.to_nat w - Z.to_nat (w - k)) (v / 2 ^ (w - k)) ++ lsb_bits (Z.to_nat (w - k)) v <> []).
+      { intros H. apply (f_equal (@List.length bool)) in H. rewrite app_length, !lsb_bits_length in H. cbn in H. lia. }
+      destruct (mk_bv_bits_rev _ _ _ HX E) as [_ E'].
+      assert (Hlen : zlen (lsb_bits (Z.to_nat w - Z.to_nat (w - k)) (v / 2 ^ (w - k)) ++ lsb_bits (Z.to_nat (w - k)) v) = w).
+      { unfold zlen. rewrite app_length, !lsb_bits_length. rewrite Nat2Z.inj_add, Nat2Z.inj_sub, !Z2Nat.id by lia. lia. }
+      rewrite Hlen in E'. rewrite lsb_val_app, lsb_bits_length in E'.
+      assert (Hpd : 0 < 2 ^ (w - k)) by (apply pow2_pos; lia).
+      rewrite !lsb_val_bits in E' by (try lia; apply Z.div_pos; lia).
+      rewrite Nat2Z.inj_sub, !Z2Nat.id in E' by lia. replace (w - (w - k)) with k in E' by lia.
+      assert (Hq : 0 <= v / 2 ^ (w - k) < 2 ^ k).
+      { split; [apply Z.div_pos; lia|]. apply Z.div_lt_upper_bound; [lia|]. rewrite <- Z.pow_add_r by lia. replace (w - k + k) with w by lia. lia. }
+      rewrite (Z.mod_small (v / 2 ^ (w - k))) in E' by lia.
+      destruct (rol_val w v k Hw (conj V0 V1) Hk) as [-> _]. now apply bv_res_mk.
+  - inversion E; subst. unfold mk_bvrol. rewrite (bv_width_ok a w (proj1 Na) (proj2 Na)).
+    split; [apply (bvterm_rot OBVRol); auto|]. rewrite eval_plain by reflexivity. cbn [map op_sem].
+    destruct (bvterm_eval w a Na) as [-> _]. reflexivity.
+Qed.
+Lemma py_repeat_single {A} (x : A) k : py_repeat [x] k = repeat x (Z.to_nat k).
+Proof. unfold py_repeat. induction (Z.to_nat k) as [|n IH]; cbn; auto. now rewrite IH. Qed.
+Lemma ext_bits_val f m n v : (0 < n)%nat -> 0 <= v < 2 ^ Z.of_nat n -> forall w r,
+  mk_bv_bits (repeat f m ++ bits_msb n v) (Some w) = Some r ->
+  w = Z.of_nat m + Z.of_nat n /\ mk_bv ((if f then 2 ^ Z.of_nat m - 1 else 0) * 2 ^ Z.of_nat n + v) w = Some r.
+Proof.
+  intros Hn Hv w r E. unfold mk_bv_bits, int_of_bits in E.
+  destruct (repeat f m ++ bits_msb n v) as [|b l] eqn:El.
+  { apply (f_equal (@List.length bool)) in El. rewrite app_length, bits_msb_length in El. cbn in El. lia. }
+  rewrite <- El in E. assert (Hz : zlen (repeat f m ++ bits_msb n v) = Z.of_nat m + Z.of_nat n).
+  { unfold zlen. rewrite app_length, repeat_length, bits_msb_length. lia. }
+  rewrite Hz in E. destruct (Z.eqb_spec w (Z.of_nat m + Z.of_nat n)) as [->|]; [|discriminate]. split; auto.
+  rewrite int_of_bits_acc_app, int_of_bits_acc_repeat in E. rewrite int_of_bits_acc_val in E.
+  rewrite bits_msb_length, rev_bits_msb, lsb_val_bits in E by lia. rewrite Z.mod_small in E by lia. exact E.
+Qed.
+Lemma bvterm_ext (mk : Z -> Z -> op) wa w k a : (mk = OBVZext \/ mk = OBVSext) -> wa <= w -> 0 <= w -> w = wa + k ->
+  bvterm wa a -> bvterm w (T (mk w k) [a]).
+Proof.
+  intros Hm Hle Hw0 Ew [Oa Ta]. split.
+  - apply okt_intro; [|repeat constructor; auto]. rewrite (bv_width_ok a wa Oa Ta) || idtac.
+    destruct Hm as [-> | ->]; cbn; rewrite (bv_width_ok a wa Oa Ta); now apply Z.eqb_eq.
+  - rewrite tc_tcs. cbn [tcs]. rewrite Ta. destruct Hm as [-> | ->]; cbn;
+      rewrite (proj2 (Z.ltb_ge w wa)), (proj2 (Z.ltb_ge w 0)) by lia; reflexivity.
+Qed.
+Lemma r_bv_zext_sound wa w k a r : wa <= w -> 0 <= w -> w = wa + k -> bvterm wa a -> r_bv_zext w k a = Some r ->
+  bv_res w r (bvzI a).
+Proof.
+  intros Hle Hw0 Ew Na E. unfold r_bv_zext in E. destruct (is_bv_constant a) eqn:C.
+  - destruct (const_bits wa a Na C) as (v & -> & [V0 V1] & Hwa & Zv & Hb). rewrite Hb in E. unfold Simplifier.bind in E. rewrite Zv.
+    rewrite py_repeat_single in E.
+    assert (Hn : (0 < Z.to_nat wa)%nat) by (apply (Z2Nat.inj_lt 0); lia).
+    destruct (ext_bits_val false (Z.to_nat k) (Z.to_nat wa) v Hn ltac:(rewrite Z2Nat.id by lia; lia) w r E) as [_ E'].
+    rewrite Z.mul_0_l, Z.add_0_l in E'. apply bv_res_mk; auto. lia.
+  - inversion E; subst r. unfold mk_bvzext. rewrite (bv_width_ok a wa (proj1 Na) (proj2 Na)). rewrite <- Ew.
+    split; [apply (bvterm_ext OBVZext wa); auto|]. rewrite eval_plain by reflexivity. cbn [map op_sem].
+    destruct (bvterm_eval wa a Na) as [-> _]. reflexivity.
+Qed.
+Lemma bits_msb_head n v : (0 < n)%nat -> exists l, bits_msb n v = Z.testbit v (Z.of_nat n - 1) :: l.
+Proof. intros Hn. destruct n as [|m]; [lia|]. cbn [bits_msb]. eexists. f_equal. f_equal. lia. Qed.
+Lemma r_bv_sext_sound wa w k a r : 0 < wa -> wa <= w -> w = wa + k -> bvterm wa a -> r_bv_sext w k a = Some r ->
+  bv_res w r (bvmod w (to_signed wa (bvzI a))).
+Proof.
+  intros Hwa Hle Ew Na E. unfold r_bv_sext in E. destruct (is_bv_constant a) eqn:C.
+  - destruct (const_bits wa a Na C) as (v & -> & [V0 V1] & _ & Zv & Hb). rewrite Hb in E. unfold Simplifier.bind in E. rewrite Zv.
+    assert (Hn : (0 < Z.to_nat wa)%nat) by (apply (Z2Nat.inj_lt 0); lia).
+    destruct (bits_msb_head (Z.to_nat wa) v Hn) as (l & Hl). rewrite Hl in E. rewrite <- Hl in E.
+    rewrite py_repeat_single in E. rewrite Z2Nat.id in E by lia.
+    destruct (ext_bits_val _ (Z.to_nat k) (Z.to_nat wa) v Hn ltac:(rewrite Z2Nat.id by lia; lia) w r E) as [Ewl E'].
+    assert (Hk0 : 0 <= k) by lia. rewrite !Z2Nat.id in Ewl, E' by lia.
+    rewrite (testbit_top wa v Hwa (conj V0 V1)) in E'.
+    assert (Hp1 : 0 < 2 ^ (wa - 1)) by (apply pow2_pos; lia). assert (Hpa : 0 < 2 ^ wa) by (apply pow2_pos; lia).
+    assert (E2 : 2 ^ wa = 2 * 2 ^ (wa - 1)) by (rewrite <- Z.pow_succ_r by lia; f_equal; lia).
+    assert (Epw : 2 ^ w = 2 ^ k * 2 ^ wa) by (rewrite Ewl; rewrite Z.pow_add_r by lia; reflexivity).
+    assert (Hpm : 0 < 2 ^ k) by (apply pow2_pos; lia).
+    unfold to_signed, bvmod. destruct (Z.leb_spec (2 ^ (wa - 1)) v) as [Hneg|Hpos].
+    + rewrite (proj2 (Z.ltb_ge v (2 ^ (wa - 1))) Hneg).
+      replace (v - 2 ^ wa) with (((2 ^ k - 1) * 2 ^ wa + v) + (-1) * 2 ^ w) by (rewrite Epw; lia).
+      rewrite Z.mod_add by lia. rewrite Z.mod_small by (rewrite Epw; nia). apply bv_res_mk; auto. lia.
+    + rewrite (proj2 (Z.ltb_lt v (2 ^ (wa - 1))) Hpos). rewrite Z.mul_0_l, Z.add_0_l in E'.
+      rewrite Z.mod_small by (rewrite Epw; nia). apply bv_res_mk; auto. lia.
+  - inversion E; subst r. unfold mk_bvsext. rewrite (bv_width_ok a wa (proj1 Na) (proj2 Na)). rewrite <- Ew.
+    split; [apply (bvterm_ext OBVSext wa); auto; lia|]. rewrite eval_plain by reflexivity. cbn [map op_sem].
+    destruct (bvterm_eval wa a Na) as [-> _]. reflexivity.
+Qed.
 Close Scope Z_scope.
 End Rules3.
 
@@ -2481,6 +3096,8 @@ Definition div_ok (I : interp) (o : op) (args : list term) : Prop :=
   match o, args with ODiv, [a; b] => ~ is_zero_val (eval I b) | _, _ => True end.
 Lemma res_weaken I r ty v (P : Prop) : res_ok I r ty v -> okt r = true /\ tc r = Some ty /\ (P -> eval I r = v).
 Proof. intros (A & B & C). auto. Qed.
+Lemma bv_res_ok I w r x t : bv_res I w r x -> eval I t = VBV w x -> res_ok I r (TBV w) (eval I t).
+Proof. intros [[O Tc] Ev] Et. rewrite Et. repeat split; auto. Qed.
 Lemma nterm_res I t r a : wfi I -> arith t -> nterm t r -> nterm t a -> rv I r = rv I a -> res_ok I r t (eval I a).
 Proof. intros Hwf Ht [O Tc] Na E. repeat split; auto. apply (nterm_eval_eq I t); auto. split; auto. Qed.
 
@@ -2645,8 +3262,17 @@ Proof.
       eapply Hres; [exact (r_bv_comp_sound I Hwf wa a b r (conj Oa Ta) (conj Ob Tb) E) | | reflexivity].
       rewrite eval_plain by reflexivity. cbn [map op_sem].
       destruct (bvterm_eval I Hwf wa a (conj Oa Ta)) as [-> _]. destruct (bvterm_eval I Hwf wa b (conj Ob Tb)) as [-> _]. reflexivity.
+    + destruct (bv_args_generic BSdiv w args ty Logic.I Hok Htc) as [Ety F]. destruct args as [|a [|b [|? ?]]]; try discriminate. unfold bin in E.
+      inversion F as [|? ? Na F']; subst. inversion F' as [|? ? Nb _]; subst.
+      eapply Hres; [exact (r_bv_sdiv_sound I Hwf w a b r Hw Na Nb E) | now rewrite (bvz_bvop I Hwf _ w a b Na Nb) | reflexivity].
+    + destruct (bv_args_generic BSrem w args ty Logic.I Hok Htc) as [Ety F]. destruct args as [|a [|b [|? ?]]]; try discriminate. unfold bin in E.
+      inversion F as [|? ? Na F']; subst. inversion F' as [|? ? Nb _]; subst.
+      eapply Hres; [exact (r_bv_srem_sound I Hwf w a b r Hw Na Nb E) | now rewrite (bvz_bvop I Hwf _ w a b Na Nb) | reflexivity].
+    + destruct (bv_args_generic BAshr w args ty Logic.I Hok Htc) as [Ety F]. destruct args as [|a [|b [|? ?]]]; try discriminate. unfold bin in E.
+      inversion F as [|? ? Na F']; subst. inversion F' as [|? ? Nb _]; subst.
+      eapply Hres; [exact (r_bv_ashr_sound I Hwf w a b r Hw Na Nb E) | now rewrite (bvz_bvop I Hwf _ w a b Na Nb) | reflexivity].
   - (* bv relations *)
-    destruct args as [|a [|b [|? ?]]]; try (destruct k; discriminate).
+    destruct args as [|a [|b [|? ?]]]; try discriminate.
     destruct (bv_args_pair _ a b ty Hok Htc) as (ta & tb & Oa & Ob & Ta & Tb & Hr2).
     pose proof (bv_to_bool_out _ _ Hr2) as ->. cbn in Hr2. destruct ta as [| | | |wa| | |]; try discriminate.
     destruct tb as [| | | |wb| | |]; try discriminate. cbn in Hr2. destruct (Z.eqb_spec wa wb) as [<-|]; [|discriminate].
@@ -2656,6 +3282,52 @@ Proof.
       rewrite eval_plain by reflexivity. cbn [map op_sem]. rewrite Ea, Eb. cbn. apply res_ok_bool; auto.
     + destruct (r_bv_ule_sound I Hwf wa a b r (conj Oa Ta) (conj Ob Tb) E) as [B1 B2].
       rewrite eval_plain by reflexivity. cbn [map op_sem]. rewrite Ea, Eb. cbn. apply res_ok_bool; auto.
+    + destruct (r_bv_slt_sound I Hwf wa a b r (conj Oa Ta) (conj Ob Tb) E) as [B1 B2].
+      rewrite eval_plain by reflexivity. cbn [map op_sem]. rewrite Ea, Eb. cbn. apply res_ok_bool; auto.
+    + destruct (r_bv_sle_sound I Hwf wa a b r (conj Oa Ta) (conj Ob Tb) E) as [B1 B2].
+      rewrite eval_plain by reflexivity. cbn [map op_sem]. rewrite Ea, Eb. cbn. apply res_ok_bool; auto.
+  - (* extract *)
+    destruct args as [|a [|? ?]]; try discriminate.
+    apply andb_true_iff in Hn. destruct Hn as [Hn Hse]. apply andb_true_iff in Hn. destruct Hn as [_ Hs0]. apply Z.leb_le in Hse, Hs0.
+    inversion F2 as [|? ta ? ? Ha F2']; subst. inversion F2'; subst. inversion Fa as [|? ? Oa _]; subst.
+    cbn in Hr. destruct ta as [| | | |wa| | |]; try discriminate.
+    destruct (Z.geb_spec s wa); [discriminate|]. destruct (Z.geb_spec e wa); [discriminate|]. cbn [orb] in Hr.
+    destruct (wa <? w)%Z; [discriminate|]. destruct (Z.eqb_spec w (e - s + 1)) as [->|]; [|discriminate]. cbn in Hr. inversion Hr; subst ty.
+    eapply bv_res_ok; [exact (r_bv_extract_sound I Hwf wa s e a r (conj Oa Ha) Hs0 Hse ltac:(lia) E)|].
+    rewrite eval_plain by reflexivity. cbn [map op_sem]. destruct (bvterm_eval I Hwf wa a (conj Oa Ha)) as [-> _]. reflexivity.
+  - (* rol *)
+    destruct args as [|a [|? ?]]; try discriminate.
+    apply andb_true_iff in Hn. destruct Hn as [_ Hw]. apply Z.ltb_lt in Hw.
+    inversion F2 as [|? ta ? ? Ha F2']; subst. inversion F2'; subst. inversion Fa as [|? ? Oa _]; subst.
+    cbn in Hr. destruct (Z.ltb_spec w k); [discriminate|]. destruct (w <? 0)%Z; [discriminate|]. destruct (Z.ltb_spec k 0); [discriminate|]. cbn [orb] in Hr.
+    destruct ta as [| | | |wa| | |]; try discriminate. destruct (Z.eqb_spec w wa) as [<-|]; [|discriminate]. inversion Hr; subst ty.
+    eapply bv_res_ok; [exact (r_bv_rol_sound I Hwf w k a r Hw ltac:(lia) (conj Oa Ha) E)|].
+    rewrite eval_plain by reflexivity. cbn [map op_sem]. destruct (bvterm_eval I Hwf w a (conj Oa Ha)) as [-> _]. reflexivity.
+  - (* ror *)
+    destruct args as [|a [|? ?]]; try discriminate.
+    apply andb_true_iff in Hn. destruct Hn as [_ Hw]. apply Z.ltb_lt in Hw.
+    inversion F2 as [|? ta ? ? Ha F2']; subst. inversion F2'; subst. inversion Fa as [|? ? Oa _]; subst.
+    cbn in Hr. destruct (Z.ltb_spec w k); [discriminate|]. destruct (w <? 0)%Z; [discriminate|]. destruct (Z.ltb_spec k 0); [discriminate|]. cbn [orb] in Hr.
+    destruct ta as [| | | |wa| | |]; try discriminate. destruct (Z.eqb_spec w wa) as [<-|]; [|discriminate]. inversion Hr; subst ty.
+    eapply bv_res_ok; [exact (r_bv_ror_sound I Hwf w k a r Hw ltac:(lia) (conj Oa Ha) E)|].
+    rewrite eval_plain by reflexivity. cbn [map op_sem]. destruct (bvterm_eval I Hwf w a (conj Oa Ha)) as [-> _]. reflexivity.
+  - (* zext *)
+    destruct args as [|a [|? ?]]; try discriminate.
+    inversion F2 as [|? ta ? ? Ha F2']; subst. inversion F2'; subst. inversion Fa as [|? ? Oa _]; subst.
+    cbn in Hr. destruct ta as [| | | |wa| | |]; try discriminate.
+    destruct (Z.ltb_spec w wa); [discriminate|]. destruct (Z.ltb_spec w 0); [discriminate|]. cbn in Hr. inversion Hr; subst ty.
+    apply Z.eqb_eq in Hn. rewrite (bv_width_ok a wa Oa Ha) in Hn.
+    eapply bv_res_ok; [exact (r_bv_zext_sound I Hwf wa w k a r ltac:(lia) ltac:(lia) Hn (conj Oa Ha) E)|].
+    rewrite eval_plain by reflexivity. cbn [map op_sem]. destruct (bvterm_eval I Hwf wa a (conj Oa Ha)) as [-> _]. reflexivity.
+  - (* sext *)
+    destruct args as [|a [|? ?]]; try discriminate.
+    inversion F2 as [|? ta ? ? Ha F2']; subst. inversion F2'; subst. inversion Fa as [|? ? Oa _]; subst.
+    cbn in Hr. destruct ta as [| | | |wa| | |]; try discriminate.
+    destruct (Z.ltb_spec w wa); [discriminate|]. destruct (Z.ltb_spec w 0); [discriminate|]. cbn in Hr. inversion Hr; subst ty.
+    apply Z.eqb_eq in Hn. rewrite (bv_width_ok a wa Oa Ha) in Hn.
+    pose proof (bvterm_pos a wa Oa Ha) as Hwa.
+    eapply bv_res_ok; [exact (r_bv_sext_sound I Hwf wa w k a r Hwa ltac:(lia) Hn (conj Oa Ha) E)|].
+    rewrite eval_plain by reflexivity. cbn [map op_sem]. destruct (bvterm_eval I Hwf wa a (conj Oa Ha)) as [-> _]. reflexivity.
   - (* div *) contradiction.
   - (* pow *)
     destruct args as [|a [|e rest]]; try discriminate.
@@ -2696,9 +3368,26 @@ Definition sound_at (ora : oracle) (t : term) : Prop :=
 
 Lemma Forall2_length_eq {A B} (R : A -> B -> Prop) l l' : Forall2 R l l' -> List.length l = List.length l'.
 Proof. induction 1; cbn; auto. Qed.
-Lemma ok_node_length o l l' : match o with OPow => False | _ => True end ->
+Definition len_op (o : op) : bool := match o with OPow | OBVZext _ _ | OBVSext _ _ => false | _ => true end.
+Lemma ok_node_length o l l' : len_op o = true ->
   List.length l = List.length l' -> ok_node o l = ok_node o l'.
-Proof. intros Ho H. destruct o; try contradiction; cbn; try rewrite H; auto. Qed.
+Proof. intros Ho H. destruct o; try discriminate Ho; cbn; try rewrite H; auto. Qed.
+(* Zext / Sext: the payload is tied to the width of the operand, which simplification keeps *)
+Lemma ok_node_ext o l l' : (exists w k, o = OBVZext w k \/ o = OBVSext w k) -> ok_node o l = true ->
+  Forall2 (fun a a' => okt a' = true /\ tc a' = tc a) l l' -> Forall (fun a => okt a = true) l ->
+  (exists ty, tc (T o l) = Some ty) -> ok_node o l' = true.
+Proof.
+  intros (w & k & Ho) Hn F2 Fa (ty & Htc).
+  destruct (tc_inv _ _ _ Htc) as (tys & Ht & Hr). pose proof (tcs_Forall2 _ _ Ht) as FT.
+  assert (G : match l with [a] => (w =? bv_width a + k)%Z | _ => false end = true) by (destruct Ho as [-> | ->]; exact Hn).
+  destruct l as [|a [|? ?]]; try discriminate G.
+  inversion F2 as [|? a' ? ? [Oa' Ta'] F2']; subst. inversion F2'; subst. inversion Fa as [|? ? Oa _]; subst.
+  inversion FT as [|? ta ? ? Ha FT']; subst. inversion FT'; subst.
+  assert (exists wa, ta = TBV wa) as (wa & ->).
+  { destruct Ho as [-> | ->]; cbn in Hr; destruct ta; try discriminate; eauto. }
+  rewrite (bv_width_ok a wa Oa Ha) in G. rewrite Ha in Ta'.
+  destruct Ho as [-> | ->]; cbn; now rewrite (bv_width_ok a' wa Oa' Ta').
+Qed.
 (* Pow: the exponent is a constant, which simplification leaves alone *)
 Lemma ok_node_pow ora l l' : ok_node OPow l = true ->
   Forall2 (fun a a' => simplify_opt ora a = Some a') l l' -> ok_node OPow l' = true.
@@ -2729,10 +3418,12 @@ Proof.
       apply (IHl (Forall_inv_tail IH) (Forall_inv_tail Fa) tr); auto. now apply Forall2_tcs. }
   assert (Hok' : okt (T o args') = true).
   { apply okt_intro.
-    - destruct (op_eqb o OPow) eqn:Eo.
-      + apply op_eqb_eq in Eo. subst o. eapply ok_node_pow; eauto.
-      + rewrite <- (ok_node_length o args args'); auto; [|eapply Forall2_length_eq; eauto].
-        destruct o; try exact Logic.I. discriminate Eo.
+    - destruct (len_op o) eqn:Eo.
+      + rewrite <- (ok_node_length o args args'); auto. eapply Forall2_length_eq; eauto.
+      + destruct o; try discriminate Eo.
+        * apply (ok_node_ext _ args args'); eauto. specialize (HA I Hwf). clear - HA. induction HA; constructor; tauto.
+        * apply (ok_node_ext _ args args'); eauto. specialize (HA I Hwf). clear - HA. induction HA; constructor; tauto.
+        * eapply ok_node_pow; eauto.
     - specialize (HA I Hwf). clear - HA. induction HA; constructor; tauto. }
   assert (Htc' : tc (T o args') = Some ty).
   { rewrite tc_tcs. replace (tcs args') with (tcs args); [now rewrite Ht|].
